@@ -17,9 +17,21 @@ CORPUS = [
 ]
 
 
+def big_request_schedules():
+    """Requests of kilobytes .. more than 2 MiB (MPD's own limits are the server's business), taken inside the re-idle window and from
+    the idling state, then ordinary traffic: the session goes on, idle is re-issued."""
+    out = []
+    for n in (5000, 20000):
+        big = L.spec("big", str(n))
+        e = lambda x: L.spec("echo", x)
+        out.append(L.Sched(labels=["D0", "c1:" + e("a"), "S*", "D0", "S*", "D0", "c2:" + big, "S*", "D0", "t200", "S*", "D0", "c3:" + e("z")] + L.flush(3), note=f"a {n}-byte request inside the window"))
+        out.append(L.Sched(labels=["D0", "S*", "D0", "i1:" + big + "," + e("b"), "S*", "D0", "S*", "D0", "c2:" + e("z")] + L.flush(2), note=f"a {n}-byte list from the idling state"))
+    return out
+
+
 def gen(ctx):
     rng = ctx.rng
-    scheds = list(CORPUS) + L.binary_reply_schedules()
+    scheds = list(CORPUS) + L.binary_reply_schedules() + big_request_schedules()
     n = 150 if ctx.tier == "quick" else 3000
     for _ in range(n):
         labels, info, nreq = L.gen_session(rng, rng.choice([5, 15, 40, 80]), pauses=True)
